@@ -390,8 +390,12 @@ class IncidentObserver(Referenceable):
 
     def _got_incident(self, incident, name, trigger):
         # We always save the incident to a .bz2 file.
-        abs_fn = self.basedir.child(name).path # this prevents evil
-        abs_fn += ".flog.bz2"
+        fp = self.basedir.child(name) # this prevents evil
+        if fp.parent() != self.basedir:
+            # "", "." and "a/.." denote the directory itself: the savefile
+            # would be created next to it instead of inside it
+            raise ValueError("bad incident name %r" % (name,))
+        abs_fn = fp.path + ".flog.bz2"
         # we need to record the relative pathname of the savefile, for use by
         # the classifiers (they write it into their output files)
         rel_fn = os.path.join("incidents", self.tubid_s, name) + ".flog.bz2"
